@@ -143,6 +143,7 @@ func init() {
 	b2s := func(x *Exec, fr *frame, args []Value) Value { return normStr(sliceTerms(args[0])) }
 	reg("github.com/sourcegraph/zoekt/query.b2s", b2s)
 	reg("github.com/sourcegraph/zoekt.b2s", b2s)
+	rt("Debug", func(x *Exec, fr *frame, args []Value) Value { return nil })
 	rt("IsSymbolic", func(x *Exec, fr *frame, args []Value) Value { return tTrue })
 	rt("loadVector", func(x *Exec, fr *frame, args []Value) Value { return nil })
 	rt("Unsupported", func(x *Exec, fr *frame, args []Value) Value { panic(unsupported{strArg(args[0])}) })
